@@ -171,6 +171,7 @@ static long null_call(int k, xrl_error **ep, xrl_error **slot) {
   return rc;
 }
 
+static void xv_poison_errno(void) { static unsigned k; static const int v[4] = {ERANGE, EDOM, ENOMEM, 0}; errno = v[k++ & 3]; }   /* see harness/cdrv.c */
 int main(void) {
   static char line[1 << 16], b1[1 << 16], b2[1 << 12];
   char *tok[16];
@@ -181,6 +182,7 @@ int main(void) {
   printf("%s", "");
   diag = tmpfile(); if (diag) stderr = diag;
   while (fgets(line, sizeof line, stdin)) {
+    xv_poison_errno();
     int nt = 0;
     for (char *p = strtok(line, " \n"); p && nt < 16; p = strtok(NULL, " \n")) tok[nt++] = p;
     if (nt == 0) continue;
